@@ -341,6 +341,16 @@ func c14Dedup(c *Check, P string) {
 				}
 				c.Report(ok, P+".O2", "REPOSITORY-ERROR-RETURNED", I, I.Pos(), "middleware error edge", "a repository error is returned and the handler is not called")
 			}
+			{
+				var srcs []ErrSource
+				for _, d := range dcalls {
+					srcs = append(srcs, ErrSource{d, 1})
+				}
+				for _, hc := range m.HCalls {
+					srcs = append(srcs, ErrSource{hc, 1})
+				}
+				ErrorsOnlyFrom(c, P+".O2", "MIDDLEWARE-FAILS-ONLY-ON-FAULT", I, srcs, nil, "the deduplicating middleware returns an error only when the repository or the handler did")
+			}
 			for r, vals := range ReturnValues(I, 0) {
 				if reachesAny(InstrSet{r: true}, nil) {
 					continue
@@ -400,6 +410,16 @@ func c14Dedup(c *Check, P string) {
 	eOK, eFail := NilEdges(pub, func(v ssa.Value) bool { return AllOrigins(v, ResultOfAny(dcalls, 1)) })
 	dup, fresh := BoolEdges(pub, func(v ssa.Value) bool { return AllOrigins(v, ResultOfAny(dcalls, 0)) })
 	c.Floor(P+".O2", "decorator: tests of the error and of the verdict", b2i(len(eOK) > 0)+b2i(len(dup) > 0), 2)
+	{
+		var srcs []ErrSource
+		for _, d := range dcalls {
+			srcs = append(srcs, ErrSource{d, 1})
+		}
+		for _, ip := range inner {
+			srcs = append(srcs, ErrSource{ip, 0})
+		}
+		ErrorsOnlyFrom(c, P+".O2", "DECORATOR-FAILS-ONLY-ON-FAULT", pub, srcs, nil, "the deduplicating publisher fails only when the repository or the wrapped publisher failed")
+	}
 	acks := SettleSites(pub, nAck, func(v ssa.Value) bool { return AllOrigins(v, isElem) }, 0)
 	c.Floor(P+".O2", "decorator: Ack of a duplicate", len(acks), 1)
 	for _, a := range acks {
